@@ -205,6 +205,8 @@ class LoaderGroup(Generic[_K, _L]):
         LoaderGroup
             A loader group instance with updated molecules.
         """
+        from acryo.loader._base import _normalize_max_shifts
+
         all_tasks: list[DaskTaskList[AlignmentResult]] = []
         template_map = _normalize_template(template)
         input_shape: tuple[int, int, int] | None = None
@@ -214,7 +216,9 @@ class LoaderGroup(Generic[_K, _L]):
                 loader.normalize_mask(mask),
                 **align_kwargs,
             )
-            _max_shifts_px = np.asarray(max_shifts) / loader.scale
+            _max_shifts_px = tuple(
+                np.asarray(_normalize_max_shifts(max_shifts)) / loader.scale
+            )
             tasks = loader.construct_mapping_tasks(
                 model.align,
                 max_shifts=_max_shifts_px,
@@ -320,6 +324,8 @@ class LoaderGroup(Generic[_K, _L]):
         LoaderGroup
             A loader group with updated molecules.
         """
+        from acryo.loader._base import _normalize_max_shifts
+
         all_tasks: list[DaskTaskList[AlignmentResult]] = []
         template_map = _normalize_template(templates)
         input_shape: tuple[int, int, int] | None = None
@@ -331,7 +337,9 @@ class LoaderGroup(Generic[_K, _L]):
                 mask=loader.normalize_mask(mask),
                 **align_kwargs,
             )
-            _max_shifts_px = np.asarray(max_shifts) / loader.scale
+            _max_shifts_px = tuple(
+                np.asarray(_normalize_max_shifts(max_shifts)) / loader.scale
+            )
             tasks = loader.construct_mapping_tasks(
                 model.align,
                 max_shifts=_max_shifts_px,
